@@ -19,7 +19,9 @@ RULE = ('tables of 2-6 columns x 20-300 rows: 1-3 base columns (normal / uniform
         'affine image a*x+b, sum of two columns, constant, near-constant (c*(1+1e-9 noise) or constant except '
         '1-2 rows), noisy copy; column labels are shuffled strings or ints; crossed with every marginal '
         'configuration form: class, qualified-name string, instance, per-column dict (complete / partial), '
-        'default Univariate (sparingly) over Gaussian/Beta/Gamma/Uniform/GaussianKDE.  Per table the model is '
+        'default Univariate (sparingly) over Gaussian/Beta/Gamma/Uniform/GaussianKDE; every third table is fitted on '
+        'an estimator instance that was fitted before on 1-2 other tables with the same labels (refit history).  '
+        'Per table the model is '
         'fitted with np.linalg.cond wrapped by a recorder; the driver receives the real normal scores and the '
         'recorded cond value.  A case is distinct by (configuration, table digest) and non-trivial when the table '
         'has at least one derived (dependent / constant / near-constant) column')
@@ -234,16 +236,30 @@ class CondRecorder:
         np.linalg.cond = self.orig
 
 
-def fit_real(names, cols, spec, seed=7):
+def fit_real(names, cols, spec, seed=7, hist=None):
+    """Fit the real model.  `hist` = {'tables': [cols_0, ...], 'as_array': bool}: the SAME instance is first fitted
+    on the earlier tables (same labels, other data); the recorder only sees the last fit.  With `as_array` every
+    fit receives a bare ndarray (labels are then 0..k-1 = `names`)."""
     from copulas.multivariate import GaussianMultivariate
     X = pd.DataFrame({nm: c for nm, c in zip(names, cols)}, columns=list(names))
     cfg = build_config(spec, names)
     model = GaussianMultivariate(random_state=seed) if cfg is None else \
         GaussianMultivariate(distribution=cfg, random_state=seed)
-    with CondRecorder() as rec, np.errstate(all='ignore'), warnings.catch_warnings():
+    as_array = bool(hist and hist.get('as_array'))
+    with np.errstate(all='ignore'), warnings.catch_warnings():
         warnings.simplefilter('ignore')
-        model.fit(X)
+        for hc in (hist['tables'] if hist else []):
+            H = pd.DataFrame({nm: c for nm, c in zip(names, hc)}, columns=list(names))
+            model.fit(H.to_numpy() if as_array else H)
+        with CondRecorder() as rec:
+            model.fit(X.to_numpy() if as_array else X)
     return X, model, rec.calls
+
+
+def gen_history(rng, nr, names):
+    """an earlier table with the same labels: other data, other marginal shapes, other number of rows."""
+    n = rng.choice([20, 30, 50, 80])
+    return [_base_column(rng, nr, n)[1] for _ in names]
 
 
 def bits_equal(a, b):
@@ -298,7 +314,7 @@ def lean_matrix(lean, op, S, cond=None):
 # ------------------------------------------------------------------------------------------ tie
 def run(ctx, lean):
     names_ob = ['corr:bounds', 'corr:clip', 'corr:scores', 'corr:pandas-corr', 'corr:pre-ridge',
-                'corr:cond-recorded', 'corr:correlation', 'corr:to_dict', 'corr:labels']
+                'corr:cond-recorded', 'corr:correlation', 'corr:to_dict', 'corr:labels', 'corr:refit-equals-fresh']
     if lean is None:
         for nm in names_ob:
             ctx.ob(nm, False, 'tie', 'driver unavailable')
@@ -343,11 +359,27 @@ def run(ctx, lean):
         for kd in kinds:
             ctx.count('col:' + kd.split(':')[0])
         inp = {'names': names, 'kinds': kinds, 'config': spec, 'n': len(cols[0])}
+        # every third table: the SAME estimator instance was fitted before on another table with the same labels
+        hist = None
+        if t % 3 == 1:
+            hist = {'tables': [gen_history(rng, nr, names) for _ in range(rng.choice([1, 1, 2]))], 'as_array': False}
+            inp['refit_history'] = [len(h[0]) for h in hist['tables']]
+            ctx.count('history:refit')
+        else:
+            ctx.count('history:first-fit')
         try:
-            X, model, calls = fit_real(names, cols, spec)
+            X, model, calls = fit_real(names, cols, spec, hist=hist)
         except Exception as e:  # noqa: a fit that raises is not a correspondence question (see search)
             ctx.count('fit:raises:' + type(e).__name__)
             continue
+        if hist is not None:
+            try:
+                _, fresh, _ = fit_real(names, cols, spec)
+                d = first_diff(fresh.correlation.to_numpy(), model.correlation.to_numpy(), ATOL)
+                if d:
+                    fail('corr:refit-equals-fresh', dict(inp, diff='fresh instance vs refitted instance ' + d))
+            except Exception as e:  # noqa
+                fail('corr:refit-equals-fresh', dict(inp, diff=f'fresh fit raises {type(e).__name__}'))
         k, n = len(names), len(cols[0])
         # --- scores: cdf -> clip(generated bounds) -> norm.ppf, bit-equal with _transform_to_normal
         with np.errstate(all='ignore'):
@@ -429,16 +461,37 @@ def run(ctx, lean):
 RIDGE_TOL = 1e-6       # "up to a regularisation ridge of order 1e-7"
 
 
-def oracle(names, cols, spec):
-    """The property on the real code.  -> list of (class, observed, required)."""
+def oracle(names, cols, spec, hist=None):
+    """The property on the real code (the fit under test is the LAST one of the history).
+    -> list of (class, observed, required)."""
     out = []
     try:
-        X, model, calls = fit_real(names, cols, spec)
+        X, model, calls = fit_real(names, cols, spec, hist=hist)
     except Exception as e:  # noqa
         return [('fit:raises', f'{type(e).__name__}: {str(e)[:120]}', 'fit succeeds on a numeric table')]
     k = len(names)
     Cdf = model.correlation
     C = np.asarray(Cdf.to_numpy(), dtype=float)
+    history_dependent = False
+    if hist is not None and C.shape == (k, k):
+        # the learned correlation is a function of the table passed to THIS fit call only
+        try:
+            _, fresh, _ = fit_real(names, cols, spec, hist={'tables': [], 'as_array': hist.get('as_array')})
+            F = np.asarray(fresh.correlation.to_numpy(), dtype=float)
+            d = first_diff(F, C, ATOL)
+        except Exception as e:  # noqa
+            d, F = f'fresh fit raises {type(e).__name__}', None
+        if d:
+            history_dependent = True
+            out.append(('fit:correlation-depends-on-fit-history',
+                        {'first_difference(fresh vs refitted)': d,
+                         'max_abs_diff': float(np.nanmax(np.abs(F - C))) if F is not None and F.shape == C.shape else None,
+                         'earlier_fits_rows': [len(h[0]) for h in hist['tables']], 'as_array': bool(hist.get('as_array')),
+                         'current_univariates': [marg_name(u) for u in model.univariates]},
+                        'fit(B) on an instance fitted before (same column labels) gives the same correlation as a '
+                        'fresh instance fitted on B (entrywise 1e-12): Pearson correlation of B mapped through the '
+                        'marginals fitted by THIS fit'))
+            return out          # everything else observed on this model is a symptom of the same cause
     want = list(names)
     if C.shape != (k, k):
         return [('fit:shape', str(C.shape), f'({k},{k})')]
@@ -507,7 +560,7 @@ def oracle(names, cols, spec):
     # entry = Pearson correlation of the INDEPENDENTLY recomputed clipped normal scores
     # (fitted cdf -> clip with the property's epsilon -> norm.ppf -> two-pass Pearson = np.corrcoef)
     with np.errstate(all='ignore'):
-        if np.isfinite(Sref).all():
+        if np.isfinite(Sref).all() and not history_dependent:
             Z = Sref - Sref.mean(axis=0)
             ss = np.sqrt((Z * Z).sum(axis=0))
             sconst = Sref.max(axis=0) == Sref.min(axis=0)                     # 0/0 -> NaN -> 0
@@ -595,15 +648,23 @@ def marg_name(u):
     return type(u).__name__ + ('' if inst is None else f'[{type(inst).__name__}]')
 
 
-def payload_of(names, cols, spec, kinds=None):
-    return {'names': list(names), 'cols': [[float(v) for v in c] for c in cols], 'config': spec,
-            'kinds': kinds}
+def payload_of(names, cols, spec, kinds=None, hist=None):
+    d = {'names': list(names), 'cols': [[float(v) for v in c] for c in cols], 'config': spec, 'kinds': kinds}
+    if hist is not None:
+        d['refit_history'] = {'as_array': bool(hist.get('as_array')),
+                              'tables': [[[float(v) for v in c] for c in h] for h in hist['tables']]}
+    return d
 
 
 def from_payload(p):
     names = [n for n in p['names']]
     cols = [np.array(c, dtype=float) for c in p['cols']]
-    return names, cols, p['config']
+    hist = None
+    if p.get('refit_history') is not None:
+        h = p['refit_history']
+        hist = {'as_array': bool(h.get('as_array')),
+                'tables': [[np.array(c, dtype=float) for c in t] for t in h['tables']]}
+    return names, cols, p['config'], hist
 
 
 def restrict_config(spec, names):
@@ -613,32 +674,34 @@ def restrict_config(spec, names):
     return ['dict', {k: v for k, v in spec[1].items() if k in keep}]
 
 
-def shrink(names, cols, spec, cls, budget=14):
-    """drop columns / rows while the same class still fails (k >= 2, n >= 20 kept)."""
-    def fails(nm, cs, sp):
+def shrink(names, cols, spec, cls, budget=14, hist=None):
+    """drop columns / rows while the same class still fails (k >= 2, n >= 20 kept).  Tables fitted from bare
+    arrays keep their labels 0..k-1, so their columns are not dropped."""
+    def fails(nm, cs, sp, hs):
         try:
-            return any(c == cls for c, _, _ in oracle(nm, cs, sp))
+            return any(c == cls for c, _, _ in oracle(nm, cs, sp, hs))
         except Exception:  # noqa
             return False
     i = 0
-    while budget > 0 and len(names) > 2 and i < len(names):
+    while budget > 0 and len(names) > 2 and i < len(names) and not (hist and hist.get('as_array')):
         nm = names[:i] + names[i + 1:]
         cs = cols[:i] + cols[i + 1:]
         sp = restrict_config(spec, nm)
+        hs = None if hist is None else dict(hist, tables=[h[:i] + h[i + 1:] for h in hist['tables']])
         budget -= 1
-        if fails(nm, cs, sp):
-            names, cols, spec = nm, cs, sp
+        if fails(nm, cs, sp, hs):
+            names, cols, spec, hist = nm, cs, sp, hs
         else:
             i += 1
     while budget > 0 and len(cols[0]) >= 40:
         h = max(20, len(cols[0]) // 2)
         cs = [c[:h] for c in cols]
         budget -= 1
-        if fails(names, cs, spec):
+        if fails(names, cs, spec, hist):
             cols = cs
         else:
             break
-    return names, cols, spec
+    return names, cols, spec, hist
 
 
 def fixed_probes():
@@ -656,6 +719,27 @@ def fixed_probes():
         (['p', 'q'], [p, 2 * p + 0.5 * b], ['class', 'BetaUnivariate'], ['probe:beta-offset']),
         (['a', 'k2', 'd', 'k1'], _binary_beta_probe(), ['inst', 'BetaUnivariate'], ['probe:binary-beta']),
     ] + tiny_and_outlier_probes()
+
+
+def history_probes():
+    """the same estimator instance fitted twice on tables with identical labels but different data / marginal
+    shapes (DataFrames, and bare arrays of the same width).  (names, cols, spec, kinds, hist)"""
+    from scipy import stats
+
+    def tab(seed, n, scale, rho):
+        r = np.random.RandomState(seed)
+        z = r.multivariate_normal([0, 0, 0], [[1, rho, 0.3], [rho, 1, -0.2], [0.3, -0.2, 1]], n)
+        u = stats.norm.cdf(z)
+        return [stats.gamma.ppf(u[:, 0], 2.0) * scale, u[:, 1] * scale * 3 + scale,
+                stats.beta.ppf(u[:, 2], 2.0, 5.0) * scale - scale]
+    A, B, C3 = tab(11, 60, 1.0, 0.7), tab(12, 80, 25.0, -0.5), tab(13, 40, 0.01, 0.1)
+    g, u = ['class', 'GaussianUnivariate'], ['inst', 'UniformUnivariate']
+    return [
+        (['a', 'b', 'c'], B, g, ['probe:refit-same-labels'], {'tables': [A], 'as_array': False}),
+        (['a', 'b', 'c'], B, ['dict', {"'a'": ['class', 'GammaUnivariate'], "'b'": u, "'c'": ['str', 'GaussianKDE']}],
+         ['probe:refit-same-labels-dict'], {'tables': [C3, A], 'as_array': False}),
+        ([0, 1, 2], B, g, ['probe:refit-arrays'], {'tables': [A], 'as_array': True}),
+    ]
 
 
 def _binary_beta_probe():
@@ -702,40 +786,50 @@ def search(ctx, deep):
     checked = found = 0
     ndefault = 0
     seen_cls = set()
-    probes = fixed_probes()
+    probes = fixed_probes() + history_probes()
     for t in range(len(probes) + ntables):
+        hist = None
         if t < len(probes):
-            names, cols, spec, kinds = probes[t]
+            names, cols, spec, kinds = probes[t][:4]
+            hist = probes[t][4] if len(probes[t]) > 4 else None
         else:
             names, cols, kinds = gen_table(rng, nr, quick_rows=not deep)
             allow_default = ndefault < (24 if deep else 1) and len(names) <= 3
             spec = gen_config(rng, names, allow_default)
             if spec[0] == 'default' or (spec[0] == 'dict' and len(spec[1]) < len(names)):
                 ndefault += 1
-        res = oracle(names, cols, spec)
+            if rng.random() < 0.3:         # the estimator instance was fitted before on same-label tables
+                hist = {'tables': [gen_history(rng, nr, names) for _ in range(rng.choice([1, 1, 2]))],
+                        'as_array': False}
+                if rng.random() < 0.3:     # ... or all fits got bare arrays of the same width
+                    names = list(range(len(names)))
+                    spec = restrict_config(spec, names) if spec[0] != 'dict' else ['class', 'GaussianUnivariate']
+                    hist['as_array'] = True
+        res = oracle(names, cols, spec, hist)
         checked += 1
         ctx.count('search:tables')
+        ctx.count('search:history:' + ('none' if hist is None else ('arrays' if hist['as_array'] else 'frames')))
         for cls, obs, req in res:
             found += 1
             ctx.count('search:fail:' + cls)
             if cls in seen_cls:
                 continue
             seen_cls.add(cls)
-            nm, cs, sp = shrink(list(names), list(cols), spec, cls)
-            res2 = [r for r in oracle(nm, cs, sp) if r[0] == cls]
+            nm, cs, sp, hs = shrink(list(names), list(cols), spec, cls, hist=hist)
+            res2 = [r for r in oracle(nm, cs, sp, hs) if r[0] == cls]
             if res2:
                 obs, req = res2[0][1], res2[0][2]
             else:
-                nm, cs, sp = names, cols, spec
-            ctx.fail_input('GaussianMultivariate.fit', payload_of(nm, cs, sp, kinds if nm == names else None),
+                nm, cs, sp, hs = names, cols, spec, hist
+            ctx.fail_input('GaussianMultivariate.fit', payload_of(nm, cs, sp, kinds if nm == names else None, hs),
                            obs, req, cls)
     ctx.support = {'tables_checked': checked, 'failures': found, 'deep': deep,
                    'oracle': 'finite, symmetric, range, diagonal, constant columns, eigvalsh>=-1e-9, cond<=1/eps, labels, '
-                             'entry=pearson(independently recomputed clipped scores), sample(5)/probability_density do not raise / no NaN'}
+                             'entry=pearson(independently recomputed clipped scores), refit history: same as a fresh instance, sample(5)/probability_density do not raise / no NaN'}
 
 
 def replay(ctx, payload):
-    names, cols, spec = from_payload(payload['input'])
+    names, cols, spec, hist = from_payload(payload['input'])
     # JSON turned int labels into ints already; keep as is
-    res = oracle(names, cols, spec)
+    res = oracle(names, cols, spec, hist)
     return any(cls == payload.get('class') for cls, _, _ in res)
